@@ -33,6 +33,9 @@ pub enum Target {
     Live,
     /// bound but not listening: the port is reserved and refuses connections
     Closed,
+    /// the same two on the IPv6 loopback address
+    Live6,
+    Closed6,
 }
 
 #[derive(Clone, Debug, Serialize, Deserialize, PartialEq)]
@@ -81,6 +84,9 @@ pub struct TcpCase {
     pub resolver: Res,
     pub local_addr: bool,
     pub via: Via,
+    /// the local bind address (if any) is ::1 instead of 127.0.0.1
+    #[serde(default)]
+    pub local_v6: bool,
 }
 
 struct LogResolver {
@@ -123,22 +129,27 @@ async fn run_tcp(c: &TcpCase) -> CaseResult {
     let mut addrs = vec![];
     for t in c.targets.iter().take(4) {
         match t {
-            Target::Live => {
-                let l = std::net::TcpListener::bind("127.0.0.1:0").map_err(|e| Fail::new("harness/setup", format!("{e}")))?;
+            Target::Live | Target::Live6 => {
+                let l = std::net::TcpListener::bind(if matches!(t, Target::Live) { "127.0.0.1:0" } else { "[::1]:0" }).map_err(|e| Fail::new("harness/setup", format!("{e}")))?;
                 l.set_nonblocking(true).ok();
                 addrs.push(l.local_addr().unwrap());
                 socks.push(Sock::Live(l));
             }
-            Target::Closed => {
-                let s = socket2::Socket::new(socket2::Domain::IPV4, socket2::Type::STREAM, None).map_err(|e| Fail::new("harness/setup", format!("{e}")))?;
-                s.bind(&SocketAddr::from((Ipv4Addr::LOCALHOST, 0)).into()).map_err(|e| Fail::new("harness/setup", format!("{e}")))?;
+            Target::Closed | Target::Closed6 => {
+                let v4 = matches!(t, Target::Closed);
+                let s = socket2::Socket::new(if v4 { socket2::Domain::IPV4 } else { socket2::Domain::IPV6 }, socket2::Type::STREAM, None).map_err(|e| Fail::new("harness/setup", format!("{e}")))?;
+                let a = if v4 { SocketAddr::from((Ipv4Addr::LOCALHOST, 0)) } else { SocketAddr::from((std::net::Ipv6Addr::LOCALHOST, 0)) };
+                s.bind(&a.into()).map_err(|e| Fail::new("harness/setup", format!("{e}")))?;
                 addrs.push(s.local_addr().unwrap().as_socket().unwrap());
                 socks.push(Sock::Closed(s));
             }
         }
     }
     let n = addrs.len();
-    let port_of = |i: u8| if n == 0 { 9 } else { addrs[pick(i, n)].port() };
+    // ports named in host strings / set_port come from the IPv4 targets only: a port reserved on
+    // ::1 is not reserved on 127.0.0.1 (another thread of the check may be listening there)
+    let v4_ports: Vec<u16> = addrs.iter().filter(|a| a.is_ipv4()).map(|a| a.port()).collect();
+    let port_of = |i: u8| if v4_ports.is_empty() { 9 } else { v4_ports[pick(i, v4_ports.len())] };
     // request
     let (host, host_port): (String, Option<u16>) = match &c.host {
         HostKind::Name => ("example.test".into(), None),
@@ -172,8 +183,9 @@ async fn run_tcp(c: &TcpCase) -> CaseResult {
     if let Some(p) = set_port {
         req = req.set_port(p);
     }
+    let local_ip = if c.local_v6 { IpAddr::V6(std::net::Ipv6Addr::LOCALHOST) } else { IpAddr::V4(Ipv4Addr::LOCALHOST) };
     if c.local_addr {
-        req = req.set_local_addr(IpAddr::V4(Ipv4Addr::LOCALHOST));
+        req = req.set_local_addr(local_ip);
     }
     // the port the request stands for: the host's own port wins over set_port
     let eff_port = host_port.or(set_port).unwrap_or(0);
@@ -263,7 +275,10 @@ async fn run_tcp(c: &TcpCase) -> CaseResult {
             Sock::Closed(_) => 0,
         })
         .collect();
-    let is_live = |a: &SocketAddr| addrs.iter().position(|x| x == a).map(|i| matches!(socks[i], Sock::Live(_))).unwrap_or(false);
+    // a socket bound to an address of one family cannot connect to the other family: such a target
+    // fails like a closed one (with some other I/O error) and the next address is tried
+    let reachable = |a: &SocketAddr| !c.local_addr || a.is_ipv4() == local_ip.is_ipv4();
+    let is_live = |a: &SocketAddr| reachable(a) && addrs.iter().position(|x| x == a).map(|i| matches!(socks[i], Sock::Live(_))).unwrap_or(false);
     let mut obs = Obs::new();
     match (&want, &result) {
         (Want::NoRecords, Err(ConnectError::NoRecords)) | (Want::ResolverErr, Err(ConnectError::Resolver(_))) | (Want::Unresolved, Err(ConnectError::Unresolved)) => {
@@ -278,7 +293,7 @@ async fn run_tcp(c: &TcpCase) -> CaseResult {
                     if peer != list[k] {
                         return Err(Fail::new("C19/wrong-address", format!("connected to {} but the first address of {:?} that accepts connections is {} (host {:?}, preset {:?})", peer, list, list[k], host, c.preset)));
                     }
-                    if c.local_addr && local.map(|a| a.ip()) != Some(IpAddr::V4(Ipv4Addr::LOCALHOST)) {
+                    if c.local_addr && local.map(|a| a.ip()) != Some(local_ip) {
                         return Err(Fail::new("C19/local-addr", "the requested local bind address was not used"));
                     }
                     // no address after the successful one was dialled; the successful one exactly once per occurrence
@@ -286,7 +301,7 @@ async fn run_tcp(c: &TcpCase) -> CaseResult {
                         let before = list[..=k].iter().filter(|x| *x == a).count();
                         let pos_first = list.iter().position(|x| x == a);
                         if matches!(socks[i], Sock::Live(_)) {
-                            let expect = if pos_first.map(|p| p <= k).unwrap_or(false) { 1 } else { 0 };
+                            let expect = if pos_first.map(|p| p <= k).unwrap_or(false) && reachable(a) { 1 } else { 0 };
                             let _ = before;
                             if accepts[i] != expect {
                                 return Err(Fail::new("C19/dial-order", format!("listener {} ({}) saw {} connection(s), expected {}: addresses {:?} must be dialled in order and only until the first success (accepts {:?})", i, a, accepts[i], expect, list, accepts)));
@@ -304,7 +319,11 @@ async fn run_tcp(c: &TcpCase) -> CaseResult {
                         // the machine ran out of ephemeral ports: the harness cannot judge this case
                         return Err(Fail::new("harness/ports", format!("connect failed with {:?}: ephemeral ports exhausted", e.kind())));
                     }
-                    if !list.iter().all(|a| a.port() == 0) && e.kind() != std::io::ErrorKind::ConnectionRefused {
+                    let last_unreachable = list.last().map(|a| !reachable(a)).unwrap_or(false);
+                    if last_unreachable {
+                        obs.label("other-family-address");
+                    }
+                    if !last_unreachable && !list.iter().all(|a| a.port() == 0) && e.kind() != std::io::ErrorKind::ConnectionRefused {
                         return Err(Fail::new("C19/last-error", format!("all addresses {:?} refuse connections, yet the error is {:?}", list, e.kind())));
                     }
                     obs.label("all-closed");
@@ -316,6 +335,10 @@ async fn run_tcp(c: &TcpCase) -> CaseResult {
         }
         (w, Ok(conn)) => return Err(Fail::new("C19/error-expected", format!("expected {:?} but a connection to {:?} was returned", w, conn.io_ref().peer_addr()))),
         (w, Err(e)) => return Err(Fail::new("C19/error-kind", format!("expected {:?}, got error {}", w, e))),
+    }
+    if let Want::Addrs(list) = &want {
+        obs.label_if(c.local_addr && list.iter().any(|a| !reachable(a)), "other-family-address");
+        obs.label_if(c.local_addr && list.len() >= 2 && list.iter().all(|a| !reachable(a)), "all-addresses-other-family");
     }
     let bypass = want_lookups == 0 && resolution_runs;
     obs.label_if(bypass, "resolver-bypassed");
@@ -580,15 +603,21 @@ async fn roundtrip<S: tokio::io::AsyncRead + tokio::io::AsyncWrite + Unpin>(s: &
 pub fn tcp_strategy() -> impl Strategy<Value = TcpCase> {
     let idx = || prop_oneof![1 => prop::collection::vec(0u8..4, 0..2), 4 => prop::collection::vec(0u8..4, 2..5)];
     (
-        prop_oneof![1 => prop::collection::vec(prop_oneof![1 => Just(Target::Live), 1 => Just(Target::Closed)], 0..2), 5 => prop::collection::vec(prop_oneof![3 => Just(Target::Live), 2 => Just(Target::Closed)], 2..5)],
+        prop_oneof![
+            1 => prop::collection::vec(prop_oneof![1 => Just(Target::Live), 1 => Just(Target::Closed)], 0..2),
+            4 => prop::collection::vec(prop_oneof![3 => Just(Target::Live), 2 => Just(Target::Closed)], 2..5),
+            2 => prop::collection::vec(prop_oneof![2 => Just(Target::Live), 1 => Just(Target::Closed), 3 => Just(Target::Live6), 2 => Just(Target::Closed6)], 2..5),
+            1 => prop::collection::vec(prop_oneof![3 => Just(Target::Live6), 2 => Just(Target::Closed6)], 2..5),
+        ],
         prop_oneof![3 => Just(HostKind::Name), 2 => (0u8..4).prop_map(|i| HostKind::NameWithPort { i }), 2 => Just(HostKind::Ip), 3 => (0u8..4).prop_map(|i| HostKind::IpWithPort { i })],
         prop_oneof![4 => Just(Preset::None), 2 => (0u8..4).prop_map(|i| Preset::WithAddr { i }), 2 => (0u8..4).prop_map(|i| Preset::SetAddr { i }), 3 => idx().prop_map(|idx| Preset::SetAddrs { idx })],
         prop::option::weighted(0.4, 0u8..4),
         prop_oneof![6 => idx().prop_map(|idx| Res::Ok { idx }), 1 => Just(Res::Empty), 1 => Just(Res::Err)],
-        prop::bool::weighted(0.2),
+        prop::bool::weighted(0.3),
         prop_oneof![4 => Just(Via::Connector), 3 => Just(Via::Split), 1 => Just(Via::TcpOnly)],
+        prop::bool::weighted(0.3),
     )
-        .prop_map(|(targets, host, preset, set_port, resolver, local_addr, via)| TcpCase { targets, host, preset, set_port, resolver, local_addr, via })
+        .prop_map(|(targets, host, preset, set_port, resolver, local_addr, via, local_v6)| TcpCase { targets, host, preset, set_port, resolver, local_addr, via, local_v6 })
 }
 
 pub fn tls_strategy() -> impl Strategy<Value = TlsCase> {
@@ -603,7 +632,16 @@ pub fn tls_strategy() -> impl Strategy<Value = TlsCase> {
         prop::collection::vec(prop::sample::select(names).prop_map(String::from), 0..3),
         prop::collection::vec(1u8..4, 0..2),
         prop::bool::weighted(0.8),
-        prop::sample::select(hosts).prop_map(String::from),
+        prop_oneof![
+            5 => prop::sample::select(hosts).prop_map(String::from),
+            // a valid (often covered) name decorated with characters that make it syntactically invalid
+            2 => (prop::sample::select(vec!["localhost", "example.test", "a.example.test"]), prop::sample::select(vec!["[", "]", "[[", "]]", "(", ")", "/", "@", "#", "%", " ", "!", "~", "\\", "\""]), prop::sample::select(vec!["", "[", "]", "]]", ")", "/", " ", "~"]), 0u8..3)
+                .prop_map(|(name, a, b, how)| match how {
+                    0 => format!("{a}{name}{b}"),
+                    1 => format!("{name}{a}"),
+                    _ => format!("{a}{name}"),
+                }),
+        ],
         prop_oneof![3 => 0u32..200, 1 => prop::sample::select(vec![16384u32, 16385, 65536])],
     )
         .prop_map(|(connector, server, san_dns, san_ip, trusted_issuer, host, payload)| {
@@ -613,15 +651,15 @@ pub fn tls_strategy() -> impl Strategy<Value = TlsCase> {
         .prop_map(|(connector, server, san_dns, san_ip, trusted_issuer, host, payload)| TlsCase { connector, server, san_dns, san_ip, trusted_issuer, host, payload })
 }
 
-const RULE_TCP: &str = "(0..4 loopback targets each live (counts accepts) or closed (bound, not listening), host string name / name:port / IPv4 literal / literal:port, addresses pre-set through with_addr / set_addr / set_addrs or not, optional set_port, custom resolver answering ok(list) / empty / error with a call log, optional local bind address; run through Connector, Resolver+TcpConnector, or TcpConnector alone); oracle: resolver not consulted when addresses are pre-set or the host is an IP literal (dialled at the request's port), otherwise exactly one lookup (hostname, port); NoRecords / Resolver / Unresolved errors; the stream's peer is the first live address in order, every live listener sees exactly the connections the in-order dialling implies, all-closed => Io(ConnectionRefused); non-trivial = a closed address before a live one, >= 2 live addresses, a bypassed resolver, or a resolution error";
-const RULE_TLS: &str = "(connector in {rustls 0.23, OpenSSL}, server in {rustls, OpenSSL}, leaf certificate with generated DNS / IP subject alternative names signed by the trusted or an untrusted CA, requested host from covered / uncovered / wildcard-covered / IP-literal / syntactically invalid printable names with or without port, payload up to 64 KiB) over in-memory pipes; oracle: a TLS stream is returned iff the issuer is trusted and the name is valid and covered (reference matcher), then the payload round-trips in both directions; otherwise an error, never a panic; non-trivial = a case that must fail, or payload > 16 KiB";
+const RULE_TCP: &str = "(0..4 loopback targets each live (counts accepts) or closed (bound, not listening), host string name / name:port / IPv4 literal / literal:port, addresses pre-set through with_addr / set_addr / set_addrs or not, optional set_port, custom resolver answering ok(list) / empty / error with a call log, optional local bind address 127.0.0.1 or ::1 with targets on either loopback family (an address of the other family fails like a closed one and the next is tried); run through Connector, Resolver+TcpConnector, or TcpConnector alone); oracle: resolver not consulted when addresses are pre-set or the host is an IP literal (dialled at the request's port), otherwise exactly one lookup (hostname, port); NoRecords / Resolver / Unresolved errors; the stream's peer is the first live address in order, every live listener sees exactly the connections the in-order dialling implies, all-closed => Io(ConnectionRefused); non-trivial = a closed address before a live one, >= 2 live addresses, a bypassed resolver, or a resolution error";
+const RULE_TLS: &str = "(connector in {rustls 0.23, OpenSSL}, server in {rustls, OpenSSL}, leaf certificate with generated DNS / IP subject alternative names signed by the trusted or an untrusted CA, requested host from covered / uncovered / wildcard-covered / IP-literal / syntactically invalid printable names (fixed examples and valid names decorated with brackets, slashes, blanks and other punctuation in front, behind or around) with or without port, payload up to 64 KiB) over in-memory pipes; oracle: a TLS stream is returned iff the issuer is trusted and the name is valid and covered (reference matcher), then the payload round-trips in both directions; otherwise an error, never a panic; non-trivial = a case that must fail, or payload > 16 KiB";
 
 pub fn run(ctx: &Ctx) {
     ctx.assume("the default (system) resolver is not exercised (no DNS in the sandbox); hostname coverage reference: exact or single-label wildcard DNS match, IP literals only against IP SANs");
     ctx.run_corpus::<TcpCase>("tcp", check_tcp);
     ctx.run_corpus::<TlsCase>("tls", check_tls);
     ctx.run_random(
-        Part::new("tcp", RULE_TCP, ctx.tier.scale(20_000, 8)).floors(&[("closed-before-live", 0.03), ("two-live", 0.1), ("resolver-bypassed", 0.3), ("resolution-error", 0.1), ("preset+ip-literal", 0.1)]).shrink_iters(2000),
+        Part::new("tcp", RULE_TCP, ctx.tier.scale(20_000, 8)).floors(&[("closed-before-live", 0.03), ("two-live", 0.1), ("resolver-bypassed", 0.3), ("resolution-error", 0.1), ("preset+ip-literal", 0.1), ("other-family-address", 0.04), ("all-addresses-other-family", 0.01)]).shrink_iters(2000),
         tcp_strategy,
         check_tcp,
     );
